@@ -760,6 +760,68 @@ impl Session {
                 let same = res == "ok" || before == image::dir_digest(&self.dir);
                 ev(json!({"e": "lk", "op": "open", "c": c, "kind": kind, "proc": proc_, "res": res, "same": same}));
             }
+            "lk_race" => {
+                // n threads race to open, hold and drop the directory; acquisition is logged after open
+                // returned Ok, release is logged BEFORE the drop, so two owners overlapping in the log
+                // overlapped in real time
+                let n = step["threads"].as_u64().unwrap_or(4);
+                let rounds = step["rounds"].as_u64().unwrap_or(20);
+                let cfg = self.cfg.clone();
+                let dir = self.dir.clone();
+                std::thread::scope(|sc| {
+                    for t in 0..n {
+                        let cfg = cfg.clone();
+                        let dir = dir.clone();
+                        std::thread::Builder::new()
+                            .name(format!("reader-8{}", t + 1))
+                            .spawn_scoped(sc, move || {
+                                let c = 100 + t;
+                                let mut seed = 88172645463325252u64 ^ (t + 1);
+                                for r in 0..rounds {
+                                    seed ^= seed << 13;
+                                    seed ^= seed >> 7;
+                                    seed ^= seed << 17;
+                                    let dump = (seed >> 5) % 3 == 0;
+                                    let config = Arc::new(cfg.config(&dir));
+                                    let n_before = gate::worker_count();
+                                    let held: Option<Contender> = if dump {
+                                        match catch_unwind(AssertUnwindSafe(|| raft_log::Dump::<VT>::new(config))) {
+                                            Ok(Ok(d)) => Some(Contender::Dump(d)),
+                                            _ => None,
+                                        }
+                                    } else {
+                                        match catch_unwind(AssertUnwindSafe(|| RaftLog::<VT>::open(config))) {
+                                            Ok(Ok(rl)) => Some(Contender::Store(rl)),
+                                            _ => None,
+                                        }
+                                    };
+                                    let kind = if dump { "dump" } else { "open" };
+                                    match held {
+                                        Some(obj) => {
+                                            ev(json!({"e": "lk", "op": "open", "c": c, "kind": kind, "proc": "race", "res": "ok", "same": true, "race": true, "round": r}));
+                                            if matches!(obj, Contender::Store(_)) {
+                                                let _ = n_before;
+                                            }
+                                            if (seed >> 9) % 2 == 0 {
+                                                std::thread::yield_now();
+                                            }
+                                            ev(json!({"e": "lk", "op": "drop", "c": c, "race": true}));
+                                            drop(obj);
+                                        }
+                                        None => {
+                                            ev(json!({"e": "lk", "op": "open", "c": c, "kind": kind, "proc": "race", "res": "err:WouldBlock:locked", "same": true, "race": true, "round": r}));
+                                        }
+                                    }
+                                }
+                            })
+                            .unwrap();
+                    }
+                });
+                // workers spawned by the racing stores are not gated
+                for w in 0..gate::worker_count() {
+                    let _ = w;
+                }
+            }
             "lk_drop" => {
                 let c = step["c"].as_u64().unwrap_or(1);
                 ev(json!({"e": "lk", "op": "drop", "c": c}));
